@@ -40,11 +40,12 @@ type c14Judge struct { // computed on the pre-state for one g_migrate tx of the 
 }
 
 type c14Model struct {
-	pairs    []c14Pair
-	used     map[string]bool // address bytes (as string) that took part in an accepted migration
-	judges   []c14Judge
-	deferred []Violation
-	baseInv  map[string]bool // invariants already broken at init (ignored)
+	pairs   []c14Pair
+	used    map[string]bool // address bytes (as string) that took part in an accepted migration
+	judges  []c14Judge
+	pending []Violation // raised since the last Check (once per id and run)
+	seen    map[string]bool
+	baseInv map[string]bool // invariants already broken at init (ignored)
 	// generator memory
 	nextTgt int
 	funded  []string // target keys that hold funds
@@ -60,15 +61,23 @@ func newC14(r *Run) *c14Model {
 	return c
 }
 
+// later records a violation once per id and run; Check / Finish hand them to the framework
+// (which lets a run continue behind findings recorded in known_findings.jsonl).
 func (c *c14Model) later(r *Run, inv, site, f string, a ...interface{}) {
 	v := gviol(inv, site, f, a...)
-	for _, d := range c.deferred {
-		if d.ID() == v.ID() {
-			return
-		}
+	if c.seen == nil {
+		c.seen = map[string]bool{}
 	}
-	v.Message = fmt.Sprintf("(step %d) %s", r.StepNo, v.Message)
-	c.deferred = append(c.deferred, v)
+	if !c.seen[v.ID()] {
+		c.seen[v.ID()] = true
+		c.pending = append(c.pending, v)
+	}
+}
+
+func (c *c14Model) flush() []Violation {
+	vs := c.pending
+	c.pending = nil
+	return vs
 }
 
 // ---------------------------------------------------------------------------------------
@@ -515,7 +524,7 @@ func (c *c14Model) check(r *Run, s *Step, o *Outcome) []Violation {
 	for _, p := range c.pairs {
 		c.stuck(r, ctx, p)
 	}
-	return nil
+	return c.flush()
 }
 
 func (c *c14Model) stuck(r *Run, ctx sdk.Context, p c14Pair) {
@@ -599,11 +608,7 @@ func (c *c14Model) finish(r *Run) []Violation {
 			}
 		}
 	}
-	if n := len(c.deferred); n > 1 {
-		k := int(r.Seed % uint64(n))
-		return append(append([]Violation{}, c.deferred[k:]...), c.deferred[:k]...)
-	}
-	return c.deferred
+	return c.flush()
 }
 
 // ---------------------------------------------------------------------------------------
